@@ -732,7 +732,14 @@ def remover_factory(prog):
     kinds = {"Name": NameN, "BoolOp": BoolOpN, "And": AndN, "Or": OrN, "Expression": ExprN}
 
     def _isinstance(it_, ev, c, args, kwargs):
-        names = [norm(x).split(".")[-1] for x in (c.args[1].elts if isinstance(c.args[1], ast.Tuple) else [c.args[1]])]
+        exprs = c.args[1].elts if isinstance(c.args[1], ast.Tuple) else [c.args[1]]
+        if not all(isinstance(x, (ast.Name, ast.Attribute)) for x in exprs):
+            # a computed class (`type(node.op)`): the evaluated value decides
+            classes = args[1] if isinstance(args[1], tuple) else (args[1],)
+            if not all(isinstance(k, type) for k in classes):
+                raise Unknown("isinstance against a value that is no class")
+            return isinstance(args[0], classes)
+        names = [norm(x).split(".")[-1] for x in exprs]
         v = args[0]
         if isinstance(v, Node):
             return any(n in kinds and isinstance(v, kinds[n]) for n in names)
@@ -769,7 +776,9 @@ def check_gene_remover(ctx, rule: str) -> None:
     OR = lambda *v: BoolOpN(OrN(), list(v))  # noqa: E731
     a, b, c, d = "a", "b", "c", "d"
     trees = [N(a), AND(N(a), N(b)), OR(N(a), N(b)), OR(N(a), N(b), N(c)), AND(N(a), N(b), N(c)), AND(N(a), OR(N(b), N(c))), OR(N(a), AND(N(b), N(c))),
-             OR(AND(N(a), N(b)), AND(N(c), N(d))), AND(OR(N(a), N(b)), OR(N(c), N(d))), AND(OR(N(a), AND(N(b), N(c))), N(d)), OR(AND(N(a), OR(N(b), N(c))), N(d)), OR(AND(N(a), N(b)), AND(N(b), N(c)))]
+             OR(AND(N(a), N(b)), AND(N(c), N(d))), AND(OR(N(a), N(b)), OR(N(c), N(d))), AND(OR(N(a), AND(N(b), N(c))), N(d)), OR(AND(N(a), OR(N(b), N(c))), N(d)), OR(AND(N(a), N(b)), AND(N(b), N(c))),
+             # the same operator nested (what `a & b & c` parses to, and what curated rules spell with brackets)
+             AND(AND(N(a), N(b)), N(c)), OR(OR(N(a), N(b)), N(c)), OR(AND(AND(N(a), N(b)), N(d)), N(c)), AND(N(a), AND(N(b), AND(N(c), N(d)))), AND(OR(OR(N(a), N(b)), N(c)), N(d)), OR(AND(N(d), AND(N(a), N(b))), AND(N(c), N(d)))]
     problems: List[str] = []
     n = 0
 
